@@ -127,7 +127,7 @@ struct Gen{
     Json& o=add("set_backing"); o["t"]=t; o["buf"]=(int)r.below(NBUFS); g[t].kind=K_EXT;
   }
   void query(){
-    if(r.chance(0.06)){ int e=pick(p_alive); if(e>=0 && g[e].dim==0 && !g[e].mf){ Json& o=add("getmatrix"); o["a"]=e; o["b"]=e; return; } }
+    if(r.chance(0.06)){ int e=pick(p_alive); if(e>=0 && g[e].dim==0 && !g[e].mf){ Json& o=add(r.chance(0.5)?"getmatrix":"eigen"); o["a"]=e; o["b"]=e; o["order"]=true; return; } }
     int a=pick(p_usable); if(a<0){ construct(); return; }
     static const char* q[]={"eq","dot","getcomps","getmatrix","real","imag","transpose","rotate","rotate_b","utransform_m","utransform_v","eigen","prep_evolve","print","rotate_m","weighted","dot_expr","const_ops"};
     int k=(int)r.weighted({10,8,8,6,5,5,6,6,5,6,6,5,10,4,5,3,5,5});
